@@ -43,7 +43,13 @@ func concOps(rnd *rand.Rand, nkeys int) step {
 	k := keys[rnd.Intn(len(keys))]
 	k2 := keys[rnd.Intn(len(keys))]
 	el := []string{"a", "b"}[rnd.Intn(2)]
-	switch rnd.Intn(16) {
+	switch rnd.Intn(18) {
+	case 16:
+		// the reclamation step, as the background manager issues it, concurrently with writers
+		return opKeyDeleteExpired(0)
+	case 17:
+		// an expiry in 1970: the key is expired but stored until someone reclaims it
+		return opKeyExpireAt("n"+k, int64(1000+rnd.Intn(500)))
 	case 14:
 		// two-statement key operations: a rename onto a name another caller may be creating
 		return opKeyRenameNX("n"+k, "n"+k2)
@@ -195,7 +201,11 @@ func concRound(db *redka.DB, cfg string, rnd *rand.Rand) {
 			case 0:
 				it = item{kind: "update"}
 				for j := 0; j < 2+rnd.Intn(2); j++ {
-					it.steps = append(it.steps, concOps(rnd, nkeys))
+					st := concOps(rnd, nkeys)
+					for strings.HasPrefix(st.text, "key.DeleteExpired") {
+						st = concOps(rnd, nkeys) // DB level only: inside a block it would wait for its own transaction
+					}
+					it.steps = append(it.steps, st)
 				}
 			case 1:
 				it = item{kind: "view"}
